@@ -44,6 +44,12 @@ def _call(args):
 def pmap(fn, jobs, procs=None):
     import teaal.trans.hifiber, teaal.parse  # noqa: import once before forking
     procs = procs or min(16, os.cpu_count() or 4)
+    # starting a worker costs several CPU-seconds of page faults on this kind of VM: do not start 16 of them for a few hundred
+    # sub-second jobs (long-running jobs - CrossHair conditions, hoist queries - come in small lists and keep one core each)
+    if len(jobs) > 64:
+        procs = max(4, min(procs, len(jobs) // 24))
+    else:
+        procs = min(procs, max(1, len(jobs)))
     if os.environ.get("VERIF_PROCS"):
         procs = int(os.environ["VERIF_PROCS"])
     if procs <= 1 or len(jobs) <= 1:
